@@ -71,8 +71,8 @@ func oracle(r *e2elife.PickRig, final bool) string {
 		// wake-ups
 		if rec.QBlocked && !rec.QFinished {
 			n := len(rec.Picks) - rec.QPicks
-			if !rec.Cancelled && r.PublishesSinceQ > 0 && n < 1 {
-				return fmt.Sprintf("rpc %s was queued in pick; %d picker update(s) since, but it has not picked again", rec.ID, r.PublishesSinceQ)
+			if !rec.Cancelled && rec.QSure && r.PublishesSinceQ > 0 && curGen > 0 && n < 1 {
+				return fmt.Sprintf("rpc %s was queued in pick; %d picker update(s) since, the latest being %s, but it has not been woken (no Pick call since; the picker would now answer %q)", rec.ID, r.PublishesSinceQ, r.DescribePub(curGen), r.NextAnswer(rec).Kind)
 			}
 			if rec.Cancelled && rec.Quiesced && !rec.Finished {
 				return fmt.Sprintf("rpc %s was queued in pick and then cancelled, but has not terminated", rec.ID)
@@ -84,8 +84,11 @@ func oracle(r *e2elife.PickRig, final bool) string {
 			}
 		}
 		if !rec.Finished && len(rec.Picks) > 0 {
+			// every picker update re-evaluates every queued pick: the last Pick call
+			// of a queued RPC was made at or after the latest publish, whatever state
+			// that publish reported and whether or not its picker object was new
 			if lp := rec.Picks[len(rec.Picks)-1]; lp.Blocking(rec.Plan.WaitForReady) && lp.Stable && lp.Gen != curGen {
-				return fmt.Sprintf("rpc %s is queued on picker generation %d although generation %d has been published", rec.ID, lp.Gen, curGen)
+				return fmt.Sprintf("rpc %s is queued on picker generation %d and was not woken by the picker update %s (that picker would answer %q)", rec.ID, lp.Gen, r.DescribePub(curGen), r.NextAnswer(rec).Kind)
 			}
 		}
 	}
@@ -128,6 +131,9 @@ func classify(r *e2elife.PickRig) (bool, []string) {
 	r.Unlock()
 	if r.Plan.Retry {
 		cl["retry_policy"] = true
+	}
+	for _, c := range r.PublishClasses() {
+		cl[c] = true
 	}
 	byID := map[string]int{}
 	r.Handlers.Lock()
